@@ -30,7 +30,7 @@ Section ADown.
   Definition JD (a : option N) (d : adev) : Prop := J s a (ad_mac d).
 
   Lemma so_call e w e1 ok : call e w = (e1, ok) -> script_ok e -> script_ok e1.
-  Proof. unfold call, tr, script_ok. destruct (match e_fault e with Some k => k =? e_calls e | None => false end); intros H; injection H as <- _; cbn [e_script]; auto. Qed.
+  Proof. unfold call, tr, script_ok. destruct (faulty e); intros H; injection H as <- _; cbn [e_script]; auto. Qed.
   Lemma so_tr e t : script_ok e -> script_ok (tr e t).
   Proof. unfold tr, script_ok. cbn [e_script]. auto. Qed.
   Lemma so_pop e ev e1 : pop e = (ev, e1) -> script_ok e -> script_ok e1 /\ (forall f, ev = Some (SvX f) -> bytes_ok (firstn 256 f) = true).
